@@ -108,7 +108,7 @@ impl Focus {
             applier: p == "C04" || p == "C06",
             keys: p == "C05" || p == "C04",
             captures: p == "C13",
-            path_replay: p == "C04" || p == "C06",
+            path_replay: p == "C04" || p == "C06" || p == "C03",
             fen_roots: true,
             // C03(a) is C02's printed-text oracle; C02 runs it on Kk+X, C03 spends the time on schedules instead
             check_detection: p == "C06",
@@ -559,6 +559,23 @@ impl<'a> Explorer<'a> {
             match r {
                 Err(e) => self.rep.fail("C04", "position-command-panic", format!("'{}' panicked: {}", cmd, panic_text(e)), node.replay_json("position command").set("command", J::s(&cmd))),
                 Ok(b) => {
+                    if self.focus.descriptor && self.rep.property == "C03" {
+                        // C03 for positions set by startpos/FEN plus a move list: the answer to a go is always one of the
+                        // root's generated successors (shown for every expiry point and schedule elsewhere), so every
+                        // successor generated from the board THIS command built must be a legal move of the true position
+                        if let Ok(succs) = catch_unwind(AssertUnwindSafe(|| generate_moves(&b, MoveGenerationMode::AllMoves, &self.h))) {
+                            let legal = node.pos.legal_moves();
+                            for sc in &succs {
+                                let ok = move_of_successor(&node.pos, sc).map(|m| legal.contains(&m)).unwrap_or(false);
+                                if !ok {
+                                    self.rep.fail("C03", "go-after-this-position-command-can-answer-an-illegal-move", format!("'{}': the engine would consider {:?} which is not a legal move of {}", cmd, last_move_sq(sc).map(|(f, t)| format!("{}{}", rules::sq_name(f), rules::sq_name(t))), node.pos.fen()), node.replay_json("root successors after a position command").set("command", J::s(&cmd)));
+                                }
+                            }
+                            if succs.len() != legal.len() {
+                                self.rep.fail("C03", "go-after-this-position-command-misses-legal-moves", format!("'{}': {} root successors, {} legal moves", cmd, succs.len(), legal.len()), node.replay_json("root successors after a position command").set("command", J::s(&cmd)));
+                            }
+                        }
+                    }
                     if self.focus.check_detection {
                         // the board a whole `position ... moves ...` command builds carries the king cache of every
                         // move applied on the way
